@@ -700,6 +700,10 @@ func cmpC11(c hx.Case, impl any, reply map[string]any) hx.Verdict {
 		}
 		v.Detail = fmt.Sprintf("reads: impl %v ok=%v (%s) vs model %v ok=%v", ilog, jbool(im, "ok"), jstr(im, "err"), mlog, jbool(model, "ok"))
 	}
+	if jbool(spec, "uniform") && len(jlist(reply["excl"])) > 0 {
+		v.IM = false
+		v.Detail = "model: a uniform universe inside the exclusion class (contradicts uniform_never_foreign)"
+	}
 	iclog, mclog := toStrs(im["cacheLog"]), toStrs(model["cacheLog"])
 	if v.IM && (!sameStrs(iclog, mclog, true) || jbool(im, "cacheOk") != jbool(model, "ok")) {
 		v.IM = false
